@@ -375,6 +375,7 @@ func main() {
 		{"grouptypes", "package grouptypes\n\ntype (\n\tKey   uint64\n\tValue uint64\n)\n\nfunc F(k Key) Value {\n\treturn Value(k)\n}\n"},
 		{"gotoloop", "package gotoloop\n\nfunc F(n uint64) uint64 {\n\tvar s uint64 = 0\n\tfor i := uint64(0); i < n; i++ {\n\t\ts = s + i\n\t\tif s > 10 {\n\t\t\tgoto done\n\t\t}\n\t}\ndone:\n\treturn s\n}\n"},
 		{"gototail", "package gototail\n\nfunc F(n uint64) uint64 {\n\tvar s uint64 = 0\nagain:\n\tfor i := uint64(0); i < n; i++ {\n\t\ts = s + i\n\t\tgoto again\n\t}\n\treturn s\n}\n"},
+		{"twoffi", "package twoffi\n\nimport (\n\t\"github.com/goose-lang/goose/machine/async_disk\"\n\t\"github.com/goose-lang/goose/machine/disk\"\n)\n\nfunc Sizes() uint64 {\n\treturn disk.Size() + async_disk.Size()\n}\n"},
 		{"fallthru", "package fallthru\n\nfunc F(n uint64) uint64 {\n\tfor i := uint64(0); i < n; i++ {\n\t\tswitch i {\n\t\tcase 1:\n\t\t\tfallthrough\n\t\tdefault:\n\t\t}\n\t}\n\treturn n\n}\n"},
 	} {
 		dir := filepath.Join(mod, "x", it[0])
